@@ -17,6 +17,10 @@ Holds(r) ==
     [] r.k = "not" -> r.res = Not16(r.a)
     [] r.k = "tob" -> r.res = BytesLE16(r.a)
     [] r.k = "fromb" -> r.res = FromBytesLE16(r.b)
+    \* one byte of the word, read or written on its own: lob (PEEK of the low byte), setlo (the word after a POKE into the low
+    \* byte of a word that was a: the other byte stays)
+    [] r.k = "lob" -> r.res = BytesLE16(r.a)[1]
+    [] r.k = "setlo" -> r.res = FromBytesLE16(<<r.b, BytesLE16(r.a)[2]>>)
     [] r.k = "f64" -> r.bytes = IeeeBytesLE(r.f) /\ r.back = r.f
     [] r.k = "fromf64" -> r.res = IeeeFromBytesLE(r.b)
 
